@@ -748,6 +748,80 @@ def mon_model(sc, r):
     return out
 
 
+def system_request(sc, r):
+    """The observed history as an action list of the dispatcher × units system (Model/System): every event the dispatcher
+    emitted is preceded by the unit action that sent it ("send immediately before delivery" is a run of the system whenever the
+    history is one, because the executor → dispatcher channel is FIFO); shutdown signals and reporter errors are external
+    actions.  Returns (request, expected emitted sequence, key → index) or None when the scenario has setup scripts."""
+    if getattr(sc, "scripts", None): return None
+    idx = {}
+    def ix(key):
+        if key not in idx: idx[key] = len(idx)
+        return idx[key]
+    cfgtxt = sc.config + " " + " ".join(sc.cli)
+    mf = "1"
+    mm = re.search(r"max-fail\s*=\s*(\d+)", cfgtxt) or re.search(r"--max-fail[= ](\d+)", cfgtxt)
+    if mm: mf = mm.group(1)
+    elif re.search(r"fail-fast\s*=\s*false", cfgtxt) or "--no-fail-fast" in cfgtxt: mf = "a"
+    acts, want = [], []
+    res_of = lambda st: st.split(":")[1]
+    slow_of = lambda st: "1" if st.split(":")[2] == "slow" else "0"
+    nsig = 0
+    for (ns, k, d) in r.events:
+        f = d.split(" ")
+        if k == "TestStarted":
+            i = ix(f[0]); acts += [f"D{i}", "V"]; want.append(f"TestStarted({i})")
+        elif k == "TestAttemptFailedWillRetry":
+            i = ix(f[0]); st = f[1]
+            acts += [f"A:{i}:{res_of(st)}:{slow_of(st)}", "V"]; want.append(f"TestAttemptFailedWillRetry({i},{res_of(st)})")
+        elif k == "TestRetryStarted":
+            i = ix(f[0]); acts += [f"X{i}", "V"]; want.append(f"TestRetryStarted({i})")
+        elif k == "TestFinished":
+            i = ix(f[0]); sts = d[d.index("[") + 1:d.index("]")].split(",")
+            last = sts[-1].strip()
+            acts += [f"F:{i}:{res_of(last)}:{slow_of(last)}", "V"]
+            want.append(f"TestFinished({i},{','.join(res_of(x.strip()) for x in sts)})")
+        elif k == "RunBeginCancel":
+            reason = f[0]
+            want.append(f"RunBeginCancel({reason})")
+            if reason in ("Signal", "Interrupt"):
+                sent = [s_ for (_, s_) in r.sent if s_ in (2, 15, 1, 3)]
+                sg = {2: 0, 15: 1, 1: 2, 3: 3}[sent[nsig]] if nsig < len(sent) else (0 if reason == "Interrupt" else 1)
+                nsig += 1
+                acts.append(f"E:X:{sg}")
+            elif reason == "ReportError": acts.append("E:RC")
+            # TestFailure: emitted by the delivery of the failing test's Finished, already in `acts`
+        elif k == "RunBeginKill":
+            want.append("RunBeginKill")
+            sent = [s_ for (_, s_) in r.sent if s_ in (2, 15, 1, 3)]
+            sg = {2: 0, 15: 1, 1: 2, 3: 3}[sent[nsig]] if nsig < len(sent) else 0
+            nsig += 1
+            acts.append(f"E:X:{sg}")
+    n = max(len(idx), len([t for t in sc.meta.get("tests", [])]))
+    return f"sys {n} {mf} {','.join(acts) if acts else '.'}", want, idx
+
+
+def mon_system(sc, r):
+    """Correspondence of the composition: the history nextest produced is a run of the dispatcher × units system — every action is
+    enabled in the model when it happens in the history, and the model's dispatcher emits the same events in the same order."""
+    out = []
+    if r.hung: return out
+    q = system_request(sc, r)
+    if q is None: return out
+    req, want, idx = q
+    if req.endswith(" ."): return out
+    try: ans = vlib.run_driver([req])[0]
+    except RuntimeError as e: return [dict(mix.viol(sc, r, "machinery", f"model driver failed: {e}"), machinery=True)]
+    if ans == "bad-op": return [dict(mix.viol(sc, r, "machinery", f"model driver rejected {req[:300]}"), machinery=True)]
+    got = ans.split(" ## ")[0]
+    got = [] if got == "." else got.split(";")
+    # a second shutdown signal that arrives with the run already at the signal level is announced only as RunBeginKill
+    if got != want:
+        k = next((j for j, (a, b) in enumerate(zip(got, want)) if a != b), min(len(got), len(want)))
+        out.append(mix.viol(sc, r, "system", f"the history is not a run of the dispatcher × units system model: at event {k} nextest reports {want[k] if k < len(want) else 'nothing more'}, the model {got[k] if k < len(got) else 'nothing more'} (model request: {req[:400]})", {"request": req, "model": ans, "history": want}))
+    return out
+
+
 # ------------------------------------------------------------------------------------------------ running a family
 
 FAMILIES = {}
@@ -778,8 +852,8 @@ def run_family(name, seed, tier, n_quick, n_thorough, jobs=5, kinds=None):
 
 
 FAMILIES["slow"] = (gen_slow, [mon_slow, mon_model])
-FAMILIES["sig"] = (gen_sig, [mon_sig, mon_model])
-FAMILIES["cancel"] = (gen_cancel, [mon_cancel])
+FAMILIES["sig"] = (gen_sig, [mon_sig, mon_model, mon_system])
+FAMILIES["cancel"] = (gen_cancel, [mon_cancel, mon_system])
 FAMILIES["stop"] = (gen_stop, [mon_stop, mon_model])
 RULES = {
     "cancel": "end-to-end family `cancel`: fail-fast / max-fail runs where the failure arrives while another test is still running and later fails into a retry delay, or is already waiting out a retry delay; where the triggering failure is a timeout; max-fail = 2 on one thread; fail-fast off; monitors: cancellation begins exactly at the N-th failure, nothing (no test, no retry) starts afterwards, the run ends as soon as the running tests have ended (no retry delay sat out), exit 100",
